@@ -231,6 +231,10 @@ def run_stls_server(cell):
               'plaintext-bytes-executed-after-handshake',
               tls_replies=len(tls_codes), sent_over_tls=len(follow),
               callbacks=[a[0] for a in after], **info)
+    # 2. back in the just-greeted state: whatever identity was established
+    #    in clear text is forgotten (RFC 3207 4.2)
+    api.prove(not server.authed, 'authenticated-state-survived-handshake',
+              **info)
     want = None
     if cell['follow'] == 1:
         want = [b'503', b'503']       # no transaction survives
